@@ -62,6 +62,7 @@ def run(ctx):
     c02.rule_seqeq(ctx, F)  # label sequences of different lengths are never equal (zip() stops at the shorter one)
     import c19
     c19.rule_lsuffix(ctx, F)  # the new codec's flat names: order by length only for a label-aligned suffix
+    rule_charlen(ctx, F)
 
 
 # ---------------------------------------------------------------------------
@@ -976,3 +977,37 @@ def rule_lenfirst(ctx, F):
                        "records is signed in an order validators do not reproduce" % (im["self_adt"].split("::")[-1], fld, ty.split("<")[0].split("::")[-1], what),
                        sb.where(bi))
     ctx.call_sites += n
+
+
+def rule_charlen(ctx, F):
+    """RFC 4034 6.3 orders RDATA as octet strings, and a character string's first octet is its length: two character
+    strings of different lengths are ordered by length, whatever their content (`\\002aa` > `\\001b`).
+    CharStr::canonical_cmp therefore answers the comparison of the two lengths whenever it is not Equal, and compares
+    content only behind `lengths Equal` -- the record types with character-string fields (HINFO, NAPTR, ..) delegate
+    to it, and the signer sorts with it."""
+    from rulelib import facts_at, return_assignments
+    R = "C04.charlen"
+    ctx.floor(R, 1)
+    b = F.one_body(r"^<base::charstr::CharStr<T> as base::cmp::CanonicalOrd<base::charstr::CharStr<U>>>::canonical_cmp$")
+    if not ctx.anchor(R, "CharStr::canonical_cmp", b):
+        return
+    lencmp = []
+    for bb, t in b.calls():
+        if (t["fn"] or "").endswith("Ord::cmp") and len(t["args"]) == 2:
+            a = [deep_strip(b.term_of_operand(x)) for x in t["args"]]
+            if all(x[0] == "call" and (x[1] or "").endswith("::len") for x in a) and \
+                    {str([y for y in walk(x) if y[0] == "arg"][:1]) for x in a} == {"[('arg', 1)]", "[('arg', 2)]"}:
+                lencmp.append(bb)
+    returned = False
+    for rb, si, kind, term in return_assignments(b):
+        if term is not None and any(x[0] == "call" and x[5] in lencmp for x in walk(deep_strip(term))):
+            returned = True
+    content = [bb for bb, t in b.calls() if (t["fn"] or "").endswith("Ord::cmp") and bb not in lencmp]
+    behind = bool(lencmp) and all(
+        any(v in (("variant", "Equal"), ("variant", 0), ("eq", 0)) and any(x[0] == "call" and x[5] in lencmp for x in walk(deep_strip(tm)))
+            for tm, v, _e in facts_at(b, cb, F)) for cb in content)
+    ctx.ob(R, b, "character strings of different lengths are ordered by their length octet", bool(lencmp) and returned and behind,
+           "CharStr::canonical_cmp %s: `aa` sorts before `b` although on the wire \\\\002aa follows \\\\001b -- an RRset of HINFO / "
+           "NAPTR / TXT-like records is put (and signed) in an order no other implementation reproduces"
+           % ("does not compare the two lengths" if not lencmp else
+              ("does not return the comparison of the lengths" if not returned else "compares content on a path where the lengths were not found Equal")))
